@@ -105,6 +105,11 @@ CHECKS = {
         technique="deviation-bounded exploration (<=2 deviations from a menu of ~50 kinds at 10/36 tick positions) of the real server loop thread under a baton scheduler with two real clients, same-address reconnects, an authenticated malicious client, handler exceptions/re-entrant calls, shutdown and enumerated token-generator collisions; per-object lifecycle automaton as monitor",
         text="5.1e4 (quick) executions of a two-client run with shutdown: connect once and only after the handshake (session key matched against the harness's client sessions), handle_message only while connected and only with that client's own tagged payloads, disconnect exactly once (peer disconnect, silence timeout, server-side disconnect, shutdown), nothing for never-connected objects, one thread id, shutdown is the single last event, probes still delivered after handler exceptions, tokens of connected clients pairwise distinct, server thread never dies.",
         note="two addresses (+ reconnects); <=2 deviations; lock-protected queue hand-off between reactor and server thread treated as atomic (fake lock)"),
+    "C11": dict(
+        engine="mcx", category="model_checking", design="5/C11",
+        technique="fault-family exploration on the real stack with an honest echo client: every element of a structured hostile-datagram family (body kind x type byte x count x length field x magic x CRC, damaged hellos, serializer bombs, raw lengths up to RECV_SIZE) from four kinds of source address x block lists x MTUs, injected through TwistedServer.datagramReceived and through the real _UdpServer.run receive loop (fake socket module, second baton thread), one real server-loop iteration each, with per-injection oracles; pairs; a flood of hellos from 2000/6000 addresses",
+        text="7.5e4 (quick) injections in 108 worlds: after every single datagram the server thread (and the receiver thread) must be alive, the honest client's server-side connection unchanged (full snapshot) and its echo round trip still completing, a block-listed source must leave no queue entry, pool entry, handler event or reply, and for every address outside the connected pool bytes sent <= bytes received at every instant.",
+        note="lock-protected queue hand-off treated as atomic; random supplement (1.5e4, seeded) listed separately; Twisted's reactor and real sockets are replaced by fakes"),
 }
 
 NOT_YET = {
